@@ -72,6 +72,12 @@ type Server struct {
 	// later the reader is always already waiting for it, whatever the OS scheduler does.
 	DataDelay time.Duration
 
+	// PrepDelay, when > 0, makes a full resynchronisation look like a master that has to
+	// produce the snapshot first: a bare LF heartbeat at once and one a second later, the
+	// +FULLRESYNC line after PrepDelay (followed by another LF), and "$<len>" 1.5 s after
+	// that; the payload follows after DataDelay. Partial resyncs are not delayed.
+	PrepDelay time.Duration
+
 	// MachineryErrors collects protocol problems of the double itself.
 	MachineryErrors []string
 }
@@ -330,14 +336,45 @@ func (s *Server) psync(cs *connState, argv []string) {
 		}
 	}
 	var rdb []byte
-	if !grant {
-		cs.c.Push([]byte(fmt.Sprintf("+FULLRESYNC %s %d\r\n", s.cur.ReplID, rec.From)))
-		rdb = s.cur.Snapshot(s.cur.NumCmds())
-		cs.c.Push([]byte(fmt.Sprintf("$%d\r\n", len(rdb))))
-	}
 	cs.streaming = true
 	cs.next = rec.From
-	payload := func() {
+	var payload func()
+	if !grant {
+		rdb = s.cur.Snapshot(s.cur.NumCmds())
+		line := []byte(fmt.Sprintf("+FULLRESYNC %s %d\r\n", s.cur.ReplID, rec.From))
+		size := []byte(fmt.Sprintf("$%d\r\n", len(rdb)))
+		if s.PrepDelay > 0 {
+			later := func(d time.Duration, f func()) {
+				time.AfterFunc(d, func() {
+					s.mu.Lock()
+					defer s.mu.Unlock()
+					if !cs.closed {
+						f()
+					}
+				})
+			}
+			cs.c.Push([]byte("\n"))
+			later(time.Second, func() { cs.c.Push([]byte("\n")) })
+			later(s.PrepDelay, func() { cs.c.Push(line); cs.c.Push([]byte("\n")) })
+			later(s.PrepDelay+1500*time.Millisecond, func() {
+				cs.c.Push(size)
+				if s.DataDelay > 0 {
+					later(s.DataDelay, payload)
+				} else {
+					payload()
+				}
+			})
+			payload = func() {
+				cs.c.Push(rdb)
+				cs.ready = true
+				s.feed(cs)
+			}
+			return
+		}
+		cs.c.Push(line)
+		cs.c.Push(size)
+	}
+	payload = func() {
 		if cs.closed {
 			return
 		}
